@@ -409,7 +409,15 @@ def splice_fn(text, spec, lo=0, hi=None):
             cl.append(lind + '    decreases')
             cl.append(mark(_ind(l['decreases'][1], lind + '        ') + ',', l['decreases'][0]))
         if cl:
-            add(lb, '\n' + '\n'.join(cl) + '\n' + lind, order=1)
+            hdr = text[kw:lb]
+            if 'vx:T10' in hdr and 'decreases 0int' in hdr:
+                # loop produced by T10 already carries `decreases 0int`: clauses go before it
+                if l['decreases']:
+                    raise LostAnchor('fn %s: loop %d is a T10 block, it has a fixed decreases clause' % (spec.name, n))
+                dpos = kw + hdr.index('decreases 0int')
+                add(dpos, '\n'.join(c_.strip() if i_ == 0 else c_ for i_, c_ in enumerate(cl)) + '\n' + lind + '    ', order=1)
+            else:
+                add(lb, '\n' + '\n'.join(cl) + '\n' + lind, order=1)
         for p in l['prefix']:
             add(lb + 1, '\n' + _ind(p, lind + '    '), order=0)
         if l['suffix']:
